@@ -333,10 +333,11 @@ def _consumers(prog, rep):
     # ------------------------------------------------------------------ R5
     r5 = rep.rule("R5", "consumers honour the bridge state (HG suppression, CYX naming, clash exemption)", floor=4)
     ah = prog.func("biomolecule.py", "Biomolecule.add_hydrogens").node
-    hg = [s for s in iter_stmts(ah.body) if isinstance(s, ast.If) and "ss_bonded" in U(s.test)]
+    from ..core import expand_temps
+    hg = [s for s in iter_stmts(ah.body) if isinstance(s, ast.If) and "ss_bonded" in U(expand_temps(s.test, ah))]
     okhg = False
     if hg:
-        t = U(hg[0].test)
+        t = U(expand_temps(hg[0].test, ah))  # (a test hoisted into a local reads as the test itself)
         okhg = "isinstance(residue, aa.CYS)" in t and "residue.ss_bonded" in t and "atomname == 'HG'" in t \
             and isinstance(hg[0].body[-1], ast.Continue) and " or " not in t
     r5.add("HG-suppressed-iff-bonded", okhg, f"add_hydrogens skips a hydrogen under {U(hg[0].test) if hg else '<no test>'}",
